@@ -2,6 +2,14 @@
 import itertools
 
 
+def R(x):
+    """repr() that survives ints beyond the interpreter's int -> str limit (histories played at +-10**4400)."""
+    try:
+        return repr(x)
+    except ValueError:
+        return '<int of %d bits>' % x.bit_length() if isinstance(x, int) else '<unprintable>'
+
+
 def safe(fn, *a, **k):
     """(True, value) or (False, exception) - the library's exceptions are data, not harness errors."""
     try:
@@ -397,7 +405,7 @@ def check_queries(rec, prefix, G, M, nodes, ctx='', probes=None, nbunches=(), li
     for t in ts:
         S = M.static(t)
         tag = '@none' if t is None else '@t'
-        c2 = '%s t=%r' % (ctx, t)
+        c2 = '%s t=%s' % (ctx, R(t))
         loops_here = (not directed) and any(u == v for u, v in S.edges())
 
         # ---------------------------------------------------------------- interactions
